@@ -493,6 +493,64 @@ func TestProp_Rotation(t *testing.T) {
 				}
 				reorder(t)
 			},
+			"reauthorize-same-key": func(t *rapid.T) {
+				// The operator removes a node's record and authorizes the SAME certificate
+				// key again (the node re-enrols with the key pair it has): same key ID, new
+				// server key, so a new shared key. The application may record the replaced
+				// record's key as the new record's previous key; the node may go on
+				// encrypting with the credentials it held before.
+				present := names(records)
+				if len(present) == 0 {
+					t.Skip()
+				}
+				n := rapid.SampledFrom(present).Draw(t, "which")
+				old := records[n]
+				oldNI, err := types.LoadNodeInformation(w.Ctx, w.Inner, old.actor.KeyID, w.O()...)
+				if err != nil {
+					t.Fatalf("load: %v", err)
+				}
+				if err := w.RemoveNode(old.actor.KeyID); err != nil {
+					t.Fatalf("remove: %v", err)
+				}
+				b := &vkit.Actor{Name: old.actor.Name, Creds: proto.Clone(old.actor.Creds).(*types.NodeCredentials)}
+				b.Store, _ = vkit.NewBackend(vkit.Inmem)
+				b.Creds.RegistrationNonce = append([]byte(nil), old.actor.Nonce...)
+				vkit.FillActor(b)
+				st := old.state
+				if rapid.Bool().Draw(t, "newState") {
+					st = vkit.UniqueStruct(fmt.Sprintf("state-after-reauthorization-%d", len(hist)))
+				}
+				if err := w.Enroll(b, nodeenrollment.WithState(st)); err != nil {
+					t.Fatalf("re-enrol: %v", err)
+				}
+				nr := &rec{name: n, actor: b, state: st, nodeID: old.nodeID, gen: old.gen, prev: old.prev}
+				ni, err := types.LoadNodeInformation(w.Ctx, w.Inner, b.KeyID, w.O()...)
+				if err != nil {
+					t.Fatalf("load new: %v", err)
+				}
+				linked := rapid.IntRange(0, 3).Draw(t, "linkPrevious") > 0
+				if linked {
+					if e := ni.SetPreviousEncryptionKey(oldNI); e != nil {
+						t.Fatalf("SetPreviousEncryptionKey: %v", e)
+					}
+					nr.prev = old
+				} else {
+					nr.prev = nil
+				}
+				ni.NodeId = old.nodeID
+				if e := ni.Store(w.Ctx, w.Inner, w.O()...); e != nil {
+					t.Fatalf("re-store: %v", e)
+				}
+				old.name = n + "~before-reauthorization"
+				for gone[old.name] != nil {
+					old.name += "'"
+				}
+				gone[old.name] = old
+				records[n] = nr
+				flags["same-key-authorized-again"] = true
+				hist = append(hist, fmt.Sprintf("reauthorize %s (previous key recorded: %v)", n, linked))
+				reorder(t)
+			},
 			"remove-record": func(t *rapid.T) {
 				present := names(records)
 				if len(present) <= 1 {
